@@ -646,6 +646,13 @@ def _invalid_table(vd):
     T["make_xarray_grid: names"] = lambda: vd.make_xarray_grid(np.meshgrid(np.arange(3.0), np.arange(2.0)), (np.zeros((2, 3)), np.ones((2, 3))), ["a"])
     T["distance_mask: coordinate shapes"] = lambda: vd.distance_mask((e, n), 1.0, coordinates=(np.zeros((2, 2)), np.zeros((3, 2))))
     T["convexhull_mask: nothing to mask"] = lambda: vd.convexhull_mask((e, n))
+    # geographic regions with ONE bound out of range while the other one hides it from a min / max shortcut (seed C20-14)
+    for nm_, rg_ in (("W > 360, E small", [361.0, 10.0, -10.0, 10.0]), ("E < -180, W large", [170.0, -190.0, -10.0, 10.0]), ("W = 400, E = 40", [400.0, 40.0, -10.0, 10.0]),
+                     ("S > 90, N below", [0.0, 10.0, 95.0, 50.0]), ("N < -90, S above", [0.0, 10.0, -50.0, -95.0]), ("W < -180", [-181.0, 10.0, -10.0, 10.0]), ("E > 360", [10.0, 360.5, -10.0, 10.0])):
+        T["longitude_continuity: region %s" % nm_] = lambda rg_=rg_: vd.longitude_continuity(None, rg_)
+        T["longitude_continuity with coordinates: region %s" % nm_] = lambda rg_=rg_: vd.longitude_continuity((np.array([0.0, 5.0]), np.array([0.0, 1.0])), rg_)
+    T["longitude_continuity: longitude > 360"] = lambda: vd.longitude_continuity((np.array([0.0, 361.0]), np.array([0.0, 1.0])), [0.0, 10.0, -10.0, 10.0])
+    T["longitude_continuity: latitude < -90"] = lambda: vd.longitude_continuity((np.array([0.0, 5.0]), np.array([0.0, -91.0])), [0.0, 10.0, -10.0, 10.0])
     T["longitude_continuity: span > 360"] = lambda: vd.longitude_continuity(None, [-180, 185, 0, 1])
     T["Trend: negative degree"] = lambda: vd.Trend(-1).fit((e, n), d0)
     T["partition_by_sum: too many parts"] = lambda: vd.utils.partition_by_sum([1, 2, 3], 4)
